@@ -1,10 +1,11 @@
 #!/bin/bash
-# tools/import_seed.sh C04  : copies /tmp/seed/C04/SEED/{1,2} into /verif/seeded/C04-{1,2}
-p="$1"
+# tools/import_seed.sh C04 [W2]  : copies /tmp/seed/[W2]C04/SEED/{1,2} into /verif/seeded/C04-{1,2} (wave 2: -{3,4})
+p="$1"; w="${2:-}"
 for k in 1 2; do
-  s=/tmp/seed/$p/SEED/$k
+  s=/tmp/seed/$w$p/SEED/$k
+  t=$k; [ -n "$w" ] && t=$((k+2))
   if [ -f $s/patch.diff ] && [ -f $s/demo.py ] && [ -f $s/meta.json ]; then
-    mkdir -p /verif/seeded/$p-$k && cp $s/patch.diff $s/demo.py $s/meta.json /verif/seeded/$p-$k/ && echo "imported $p-$k"
+    mkdir -p /verif/seeded/$p-$t && cp $s/patch.diff $s/demo.py $s/meta.json /verif/seeded/$p-$t/ && echo "imported $p-$t"
   else
     echo "incomplete $s"
   fi
